@@ -1,9 +1,16 @@
 //! suiron_harness: runs the real suiron implementation on generated inputs and prints
 //! CASE / IMPL / ORACLE / STAT lines (see out.rs).  Usage:
 //!   suiron_harness <suite> --props C06,C07 --seed N --n N [--exhaustive] [--shard i/n] [--anon] [--func]
-mod prng; mod codec; mod gen; mod refuni; mod refarith; mod out; mod capture; mod suite_unify; mod suite_engine; mod suite_builtins; mod suite_misc; mod suite_timer;
+mod prng; mod codec; mod gen; mod refuni; mod refarith; mod out; mod capture; mod suite_unify; mod suite_engine; mod suite_builtins; mod suite_misc; mod suite_timer; mod suite_parse;
 
 use out::Out;
+
+/// readable form of an encoded term (for oracle messages)
+pub fn tools_pretty(s: &str) -> String {
+    let toks: Vec<&str> = s.split_whitespace().collect();
+    if toks.get(0) == Some(&"ok") { let mut i = 1; if let Some(t) = codec::dec_term(&toks, &mut i) { return format!("{:?}", t); } }
+    s.to_string()
+}
 
 fn arg_val(args: &[String], key: &str) -> Option<String> {
     args.iter().position(|a| a == key).and_then(|i| args.get(i + 1).cloned())
@@ -86,6 +93,27 @@ fn main() {
                 else if has(&args, "--real") { suite_timer::run_real_timer(&mut out, &cfg, n); }
                 else if has(&args, "--all-ticks") { suite_timer::run_all_ticks(&mut out, &cfg, seed, n); }
                 else { suite_timer::run_random(&mut out, &cfg, seed, n, has(&args, "--interleave")); }
+            },
+            "parse" => {
+                let cfg = suite_engine::Cfg{props};
+                let kind = arg_val(&args, "--kind").unwrap_or("grammar".into());
+                if let Some(body) = arg_val(&args, "--replay-case") {
+                    let toks: Vec<&str> = body.split_whitespace().collect();
+                    match toks[0] {
+                        "parse" => { let s = codec::unhex(toks.get(2).unwrap_or(&"")).unwrap_or_default(); suite_parse::emit_parse(&mut out, &cfg, toks[1], &s, None); },
+                        _ => { eprintln!("replay of this case kind re-runs the generator; use the seed"); },
+                    }
+                } else {
+                    match kind.as_str() {
+                        "grammar" => suite_parse::run_grammar(&mut out, &cfg, seed, n),
+                        "mutate" => suite_parse::run_mutations(&mut out, &cfg, seed, n),
+                        "random" => suite_parse::run_random_strings(&mut out, &cfg, seed, n),
+                        "strings" => suite_parse::run_exhaustive_strings(&mut out, &cfg, n, shard, nshards),
+                        "contexts" => suite_parse::run_contexts(&mut out, &cfg, seed, n),
+                        "reader" => suite_parse::run_reader(&mut out, &cfg, seed, n),
+                        _ => { eprintln!("unknown kind"); std::process::exit(2); },
+                    }
+                }
             },
             "rename" => {
                 let cfg = suite_engine::Cfg{props};
